@@ -1,17 +1,20 @@
 import NeumannModel.Vault.AtRest
 /-
   C14 — "Vault: no access without a live grant, no plaintext at rest".
-  ONLY property statements and their non-vacuity examples; helpers are in `Bfs.lean` / `Lemmas.lean`.
+  ONLY property statements and their non-vacuity examples; helpers are in `Bfs.lean` / `Lemmas.lean` /
+  `Inv.lean` / `AtRest.lean`.
 
-  What holds of the code as it is, what does not:
+  The model is the code AFTER 4e577a4d (expired TTL grants are dropped on every authorisation path) and
+  31ebe3e9 (no `_secret_key` in the secret node record).  What holds, what does not:
     * the graph search is sound and complete (`bfs_level_is_max_over_paths`);
-    * every successful non-root call passed the level check against a grant edge that is still in the
-      graph (`access_requires_grant_partial`) — but "still in the graph" is weaker than "unexpired":
-      only `get` and `list` run `cleanup_expired_grants` first.  The full property
-      `AccessRequiresLiveGrant` is therefore FALSE of the code (`access_requires_live_grant_witness`),
-      and is proved for the read paths only (`read_requires_live_grant_partial`);
+    * FULL: for every configuration, history, time and guarded operation, success of a non-root requester
+      rests on a grant edge that is unrevoked AND unexpired, reachable within the horizon and of sufficient
+      attenuated level (`access_requires_live_grant`, `…_prestate`); revoke / expiry / delete act at once;
+    * the code before 4e577a4d violated exactly this (`access_requires_live_grant_old_witness`);
     * secret VALUES never reach the store / audit log in readable form (`at_rest_no_plain_value`);
-      secret NAMES do, at three sites (`at_rest_shape_witness`).
+    * secret NAMES: clean in the secret node, `_vk:`, `_vs:` and audit records
+      (`at_rest_no_plain_name_partial`), still readable in the persisted TTL tracker and the delegation
+      records (`at_rest_no_plain_name_witness`, `at_rest_name_sites_witness` — known findings).
 -/
 namespace Neumann.Vault.Props
 open Neumann.Vault
@@ -46,7 +49,7 @@ theorem membership_alone_confers_nothing (pol : Policy) (g : Graph) (src tgt : N
 example : permLevel {} [⟨0, 2, 4, .member, none⟩, ⟨1, 4, 7, .member, none⟩, ⟨2, 2, 7, .member, none⟩] 2 7 = none := by
   decide
 
-/-! ## every successful call was authorised by a grant edge that is still in the graph -/
+/-! ## every successful call was authorised by a live grant -/
 
 /-- the (requester, secret, level) checks an operation must pass -/
 def needs : Op → List (Nat × Nat × Level)
@@ -60,17 +63,14 @@ def needs : Op → List (Nat × Nat × Level)
   | .delegate parent _ secs l _ => secs.map fun sec => (parent, sec, l)
   | .list .. | .undelegate .. | .addMember .. | .delMember .. => []
 
-/-- the state the check is evaluated in: `get` / `list` first drop expired grants -/
-def checkedIn (s : State) (t : Nat) : Op → State
-  | .get .. | .list .. => s.cleanup t
-  | _ => s
-
-/-- PARTIAL (missing: "unexpired"): in EVERY state, a successful read / overwrite / rotate / delete / grant /
-    revoke / delegate by a non-root requester implies a VAULT_ACCESS edge of sufficient attenuated level that is
-    still in the graph (unrevoked, secret not deleted) at a node reachable over < horizon MEMBER hops; and every
-    name `list` returns to a non-root requester is backed the same way. -/
-theorem access_requires_grant_partial (s : State) (t : Nat) (op : Op) (hok : (step s t op).2.isOk = true) :
-    (∀ x ∈ needs op, x.1 ≠ root → Justified (checkedIn s t op) x.1 x.2.1 x.2.2 (fun _ => True)) ∧
+/-- PARTIAL (missing: "unexpired" — an arbitrary state need not come from a history, so its TTL tracker need not
+    know the edges' expiries): in EVERY state, a successful read / overwrite / rotate / delete / grant / revoke /
+    delegate by a non-root requester implies a VAULT_ACCESS edge of sufficient attenuated level that is still in the
+    graph after `cleanup_expired_grants` (unrevoked, secret not deleted) at a node reachable over < horizon MEMBER
+    hops; and every name `list` returns to a non-root requester is backed the same way. -/
+theorem access_requires_grant_any_state_partial (s : State) (t : Nat) (op : Op)
+    (hok : (step s t op).2.isOk = true) :
+    (∀ x ∈ needs op, x.1 ≠ root → Justified (s.cleanup t) x.1 x.2.1 x.2.2 (fun _ => True)) ∧
     (∀ req p names, op = .list req p → (step s t op).2 = .names names → req ≠ root →
         ∀ n ∈ names, Justified (s.cleanup t) req n .read (fun _ => True)) := by
   constructor
@@ -78,25 +78,26 @@ theorem access_requires_grant_partial (s : State) (t : Nat) (op : Op) (hok : (st
     cases op with
     | set req sec val size =>
       simp only [needs, List.mem_singleton] at hx; subst hx
-      exact checkAccess_ok (set_ok hok hr).1 hr
+      exact set_ok hok hr
     | get req sec =>
       simp only [needs, List.mem_singleton] at hx; subst hx
-      exact checkAccess_ok (get_ok hok) hr
+      have := get_ok hok hr
+      rwa [cleanup_cleanup] at this
     | rotate req sec val size =>
       simp only [needs, List.mem_singleton] at hx; subst hx
-      exact checkAccess_ok (rotate_ok hok) hr
+      exact rotate_ok hok hr
     | delete req sec =>
       simp only [needs, List.mem_singleton] at hx; subst hx
-      exact checkAccess_ok (delete_ok hok) hr
+      exact delete_ok hok hr
     | grant req ent sec l =>
       simp only [needs, List.mem_singleton] at hx; subst hx
-      exact checkAccess_ok (grant_ok hok) hr
+      exact grant_ok hok hr
     | grantTtl req ent sec l ttl =>
       simp only [needs, List.mem_singleton] at hx; subst hx
-      exact checkAccess_ok (grantTtl_ok hok) hr
+      exact grantTtl_ok hok hr
     | revoke req ent sec =>
       simp only [needs, List.mem_singleton] at hx; subst hx
-      exact checkAccess_ok (revoke_ok hok) hr
+      exact revoke_ok hok hr
     | delegate parent child secs l ttl =>
       simp only [needs, List.mem_map] at hx
       obtain ⟨sec, hsec, rfl⟩ := hx
@@ -112,48 +113,70 @@ theorem access_requires_grant_partial (s : State) (t : Nat) (op : Op) (hok : (st
     | delMember _ _ => simp only [needs] at hx; cases hx
   · intro req p names hop hn hr n hmem
     subst hop
-    exact hasAccess_justified (list_names hn n hmem) hr
+    have := hasAccess_justified (list_names hn n hmem) hr
+    rwa [cleanup_cleanup] at this
 
 /-- non-vacuity: a non-root Write holder overwrites a secret -/
 example : (step (run (init) [(0, .set 0 1 7 3), (0, .grant 0 1 1 .write)]) 1 (.set 1 1 8 3)).2.isOk = true := by decide
 
-/-- granting and revoking require Admin on the secret (instance of the above, stated on its own) -/
-theorem grant_requires_admin (s : State) (t req ent sec : Nat) (l : Level) (ttl : Nat) (hr : req ≠ root) :
-    ((step s t (.grant req ent sec l)).2.isOk = true → Justified s req sec .admin (fun _ => True)) ∧
-    ((step s t (.grantTtl req ent sec l ttl)).2.isOk = true → Justified s req sec .admin (fun _ => True)) ∧
-    ((step s t (.revoke req ent sec)).2.isOk = true → Justified s req sec .admin (fun _ => True)) :=
-  ⟨fun h => checkAccess_ok (grant_ok h) hr, fun h => checkAccess_ok (grantTtl_ok h) hr,
-   fun h => checkAccess_ok (revoke_ok h) hr⟩
+/-- FULL.  For every configuration, every history of timed API calls, every time `t` and every operation:
+    if the call succeeds then for each (requester, secret, level) check it needs with a non-root requester — read,
+    overwrite, rotate, delete, grant, grant-with-ttl, revoke, delegate — and for each name a non-root `list`
+    returns, there is a VAULT_ACCESS edge that
+      * is in the graph the decision was taken on (= the graph before the call minus the grants the TTL tracker
+        reports expired at `t`): unrevoked, its secret not deleted;
+      * is UNEXPIRED at `t` (`LiveAt t`: the grant that created it was issued with no expiry or with one `> t`);
+      * hangs off the requester or off a group reachable from it over fewer than `horizon` MEMBER hops;
+      * after signature check, attenuation by distance and capacity gives at least the needed level.
+    Proof: history invariant `TI` (every edge issued with an expiry keeps its tracker entry, through all 12
+    operations) ⇒ after `cleanup_expired_grants` at `t` every remaining edge is live at `t`; every authorisation
+    entry point of the repaired code runs that cleanup first. -/
+theorem access_requires_live_grant (pol : Policy) (a b c : Nat) (h : List (Nat × Op)) (t : Nat) (op : Op)
+    (hok : (step (run (init pol a b c) h) t op).2.isOk = true) :
+    (∀ x ∈ needs op, x.1 ≠ root → Justified ((run (init pol a b c) h).cleanup t) x.1 x.2.1 x.2.2 (LiveAt t)) ∧
+    (∀ req p names, op = .list req p → (step (run (init pol a b c) h) t op).2 = .names names → req ≠ root →
+        ∀ n ∈ names, Justified ((run (init pol a b c) h).cleanup t) req n .read (LiveAt t)) := by
+  have hlive := ((run_inv h _ (init_inv pol a b c)).cleanup t).2
+  obtain ⟨h1, h2⟩ := access_requires_grant_any_state_partial _ t op hok
+  exact ⟨fun x hx hr => (h1 x hx hr).weaken (fun e he _ => hlive e he),
+         fun req p names hop hn hr n hmem => (h2 req p names hop hn hr n hmem).weaken (fun e he _ => hlive e he)⟩
 
-/-- non-vacuity: a Write holder cannot grant, an Admin holder can -/
-example : (step (run (init) [(0, .set 0 1 7 3), (0, .grant 0 1 1 .write)]) 1 (.grant 1 2 1 .read)).2 = .err .insufficient ∧
-          (step (run (init) [(0, .set 0 1 7 3), (0, .grant 0 1 1 .admin)]) 1 (.grant 1 2 1 .read)).2 = .ok := by decide
+/-- FULL, same statement about the state right BEFORE the call (no reference to the cleanup): the live grant
+    edge is in the pre-call graph. -/
+theorem access_requires_live_grant_prestate (pol : Policy) (a b c : Nat) (h : List (Nat × Op)) (t : Nat) (op : Op)
+    (hok : (step (run (init pol a b c) h) t op).2.isOk = true) :
+    (∀ x ∈ needs op, x.1 ≠ root → Justified (run (init pol a b c) h) x.1 x.2.1 x.2.2 (LiveAt t)) ∧
+    (∀ req p names, op = .list req p → (step (run (init pol a b c) h) t op).2 = .names names → req ≠ root →
+        ∀ n ∈ names, Justified (run (init pol a b c) h) req n .read (LiveAt t)) := by
+  obtain ⟨h1, h2⟩ := access_requires_live_grant pol a b c h t op hok
+  exact ⟨fun x hx hr => (h1 x hx hr).of_cleanup, fun req p names hop hn hr n hmem => (h2 req p names hop hn hr n hmem).of_cleanup⟩
 
-/-- `delegate` is the one way a non-Admin can create a grant: the child's edge never exceeds what the parent
-    holds at that moment, but a Read holder can hand Read on (by design of delegation.rs; recorded as a witness
-    so that the reading "granting requires admin" is not silently claimed for delegation) -/
-theorem delegate_without_admin_witness :
-    ∃ (s : State) (t : Nat), s.getPermission 1 1 = some .read ∧
-      (step s t (.delegate 1 2 [1] .read none)).2 = .level .read ∧
-      (step s t (.delegate 1 2 [1] .read none)).1.perm 2 1 = some .read :=
-  ⟨run (init) [(0, .set 0 1 7 3), (0, .grant 0 1 1 .read)], 1, by decide, by decide, by decide⟩
+/-- non-vacuity and the behaviour around expiry, one history: a Write grant issued at t=0 for 5 time units lets
+    identity 1 read, list and overwrite at t=4; at t=10 every path is closed — read, list, overwrite, rotate,
+    and (for an Admin grant) delete / grant / revoke / delegate -/
+example :
+    let s := run (init) [(0, .set 0 1 7 3), (0, .grantTtl 0 1 1 .write 5)]
+    (step s 4 (.get 1 1)).2 = .value 7 ∧ (step s 4 (.set 1 1 8 3)).2 = .ok ∧ (step s 4 (.list 1 .all)).2 = .names [1] ∧
+    (step s 10 (.get 1 1)).2 = .err .denied ∧ (step s 10 (.list 1 .all)).2 = .names [] ∧
+    (step s 10 (.set 1 1 8 3)).2 = .err .denied ∧ (step s 10 (.rotate 1 1 8 3)).2 = .err .denied := by decide
 
-/-! ## the full property and where the code breaks it -/
+example :
+    let s := run (init) [(0, .set 0 1 7 3), (0, .grantTtl 0 1 1 .admin 5)]
+    (step s 4 (.grant 1 2 1 .read)).2 = .ok ∧ (step s 4 (.delegate 1 2 [1] .write none)).2 = .level .write ∧
+    (step s 10 (.delete 1 1)).2 = .err .denied ∧ (step s 10 (.grant 1 2 1 .read)).2 = .err .denied ∧
+    (step s 10 (.grantTtl 1 2 1 .read 9)).2 = .err .denied ∧ (step s 10 (.revoke 1 2 1)).2 = .err .denied ∧
+    (step s 10 (.delegate 1 2 [1] .read none)).2 = .err .denied := by decide
 
-/-- FULL property: every successful non-root access is backed by a grant that is unrevoked AND unexpired -/
-def AccessRequiresLiveGrant : Prop :=
-  ∀ (h : List (Nat × Op)) (t : Nat) (op : Op), (step (run (init) h) t op).2.isOk = true →
-    ∀ x ∈ needs op, x.1 ≠ root → Justified (checkedIn (run (init) h) t op) x.1 x.2.1 x.2.2 (LiveAt t)
-
-/-- the code as it is violates the full property: root grants Write for 5 time units at t=0; at t=10 the
-    grantee still overwrites the secret (`set_inner` never looks at the TTL tracker) -/
-theorem access_requires_live_grant_witness : ¬ AccessRequiresLiveGrant := by
-  intro hfull
-  have h := hfull [(0, .set 0 1 7 3), (0, .grantTtl 0 1 1 .write 5)] 10 (.set 1 1 8 3) (by decide)
-    (1, 1, .write) (by simp [needs]) (by decide)
-  obtain ⟨l, e, ⟨k, grp, hpath, hk, he, hsrc, hdst, hacc, hlvl⟩, hle, hlive⟩ := h
+/-- the code BEFORE 4e577a4d violated the property: root grants Write for 5 time units at t=0; at any later time
+    (the old `set_inner` never looked at the TTL tracker) the grantee still overwrites the secret although no
+    grant live at t=10 justifies it -/
+theorem access_requires_live_grant_old_witness :
+    ∃ (h : List (Nat × Op)), ((run (init) h).setOld 1 1 8 3).2 = .ok ∧
+      ¬ Justified (run (init) h) 1 1 .write (LiveAt 10) := by
+  refine ⟨[(0, .set 0 1 7 3), (0, .grantTtl 0 1 1 .write 5)], by decide, ?_⟩
+  rintro ⟨l, e, ⟨k, grp, hpath, hk, he, hsrc, hdst, hacc, hlvl⟩, hle, hlive⟩
   -- the only access edges in that state: root's creation edge (no path from identity 1) and the expired one
-  have hg : (checkedIn (run (init) [(0, .set 0 1 7 3), (0, .grantTtl 0 1 1 .write 5)]) 10 (.set 1 1 8 3)).graph =
+  have hg : (run (init) [(0, .set 0 1 7 3), (0, .grantTtl 0 1 1 .write 5)]).graph =
       [accessEdge 1 0 1 .admin none, accessEdge 2 1 1 .write (some 5)] := by decide
   rw [hg] at he
   simp only [List.mem_cons, List.mem_nil_iff, or_false] at he
@@ -171,54 +194,106 @@ theorem access_requires_live_grant_witness : ¬ AccessRequiresLiveGrant := by
     revert hsrc; decide
   · exact absurd (hlive 5 rfl) (by omega)
 
-/-- PARTIAL (the read paths only — exactly the paths on which the code runs `cleanup_expired_grants`): for EVERY
-    configuration, EVERY history and EVERY time `t`, a successful non-root `get`, and every name a non-root `list`
-    returns, is backed by a grant edge that is unrevoked AND unexpired at `t` (and reachable / sufficient as above).
-    Proof: invariant `TI` (every edge issued with an expiry keeps its (entity, secret, expiry) entry in the TTL
-    tracker, through all 12 operations) + "after cleanup at `t` every remaining edge is live at `t`". -/
-theorem read_requires_live_grant_partial (pol : Policy) (a b c : Nat) (h : List (Nat × Op)) (t req : Nat)
-    (hr : req ≠ root) :
-    (∀ sec, (step (run (init pol a b c) h) t (.get req sec)).2.isOk = true →
-        Justified ((run (init pol a b c) h).cleanup t) req sec .read (LiveAt t)) ∧
-    (∀ p names, (step (run (init pol a b c) h) t (.list req p)).2 = .names names →
-        ∀ n ∈ names, Justified ((run (init pol a b c) h).cleanup t) req n .read (LiveAt t)) := by
-  have hinv := run_inv h _ (init_inv pol a b c)
-  have hlive := (hinv.cleanup t).2
-  constructor
-  · intro sec hok
-    exact (checkAccess_ok (get_ok hok) hr).weaken (fun e he _ => hlive e he)
-  · intro p names hn n hmem
-    exact (hasAccess_justified (list_names hn n hmem) hr).weaken (fun e he _ => hlive e he)
+/-- … while the repaired `set` refuses in the same state at the same time -/
+example : (step (run (init) [(0, .set 0 1 7 3), (0, .grantTtl 0 1 1 .write 5)]) 10 (.set 1 1 8 3)).2 = .err .denied := by
+  decide
 
-/-- non-vacuity and the contrast with the write path, same history: at t=10 the grant that expired at t=5 no
-    longer lets identity 1 read or list, but still lets it overwrite -/
-example :
-    let s := run (init) [(0, .set 0 1 7 3), (0, .grantTtl 0 1 1 .write 5)]
-    (step s 4 (.get 1 1)).2 = .value 7 ∧ (step s 10 (.get 1 1)).2 = .err .denied ∧
-    (step s 10 (.list 1 .all)).2 = .names [] ∧ (step s 10 (.set 1 1 8 3)).2 = .ok := by decide
+/-! ## granting -/
 
-/-! ## revocation and deletion act at once -/
+/-- FULL: granting (with or without TTL) and revoking require a LIVE Admin-level grant on the secret — for every
+    configuration, history, time and non-root requester -/
+theorem grant_requires_admin (pol : Policy) (a b c : Nat) (h : List (Nat × Op)) (t req ent sec : Nat) (l : Level)
+    (ttl : Nat) (hr : req ≠ root) :
+    ((step (run (init pol a b c) h) t (.grant req ent sec l)).2.isOk = true →
+        Justified (run (init pol a b c) h) req sec .admin (LiveAt t)) ∧
+    ((step (run (init pol a b c) h) t (.grantTtl req ent sec l ttl)).2.isOk = true →
+        Justified (run (init pol a b c) h) req sec .admin (LiveAt t)) ∧
+    ((step (run (init pol a b c) h) t (.revoke req ent sec)).2.isOk = true →
+        Justified (run (init pol a b c) h) req sec .admin (LiveAt t)) :=
+  ⟨fun hok => (access_requires_live_grant_prestate pol a b c h t _ hok).1 (req, sec, .admin) (List.mem_singleton.mpr rfl) hr,
+   fun hok => (access_requires_live_grant_prestate pol a b c h t _ hok).1 (req, sec, .admin) (List.mem_singleton.mpr rfl) hr,
+   fun hok => (access_requires_live_grant_prestate pol a b c h t _ hok).1 (req, sec, .admin) (List.mem_singleton.mpr rfl) hr⟩
 
-/-- after a successful `revoke req ent sec` no VAULT_ACCESS edge `ent → sec` is left; after a successful
-    `delete req sec` no edge at all points at the secret, so every non-root requester fails every level check
-    on it in the very next call (whatever the MEMBER edges) -/
-theorem revoke_delete_immediate (s : State) (t req ent sec : Nat) :
-    ((step s t (.revoke req ent sec)).2.isOk = true →
+/-- non-vacuity: a Write holder cannot grant, an Admin holder can -/
+example : (step (run (init) [(0, .set 0 1 7 3), (0, .grant 0 1 1 .write)]) 1 (.grant 1 2 1 .read)).2 = .err .insufficient ∧
+          (step (run (init) [(0, .set 0 1 7 3), (0, .grant 0 1 1 .admin)]) 1 (.grant 1 2 1 .read)).2 = .ok := by decide
+
+/-- FULL: delegation (the documented ceiling model — "agents delegate subsets of their own access") never hands
+    out more than the delegator holds: a successful `delegate` by a non-root parent answers with an effective
+    level `eff ≤` the requested one, and on every delegated secret the parent itself holds a LIVE grant of at
+    least the requested (hence of at least the effective) level at that moment. -/
+theorem delegate_within_own_level (pol : Policy) (a b c : Nat) (h : List (Nat × Op)) (t parent child : Nat)
+    (secs : List Nat) (l : Level) (ttl : Option Nat) (hr : parent ≠ root)
+    (hok : (step (run (init pol a b c) h) t (.delegate parent child secs l ttl)).2.isOk = true) :
+    ∃ eff, (step (run (init pol a b c) h) t (.delegate parent child secs l ttl)).2 = .level eff ∧
+      eff.toNat ≤ l.toNat ∧
+      ∀ sec ∈ secs, Justified (run (init pol a b c) h) parent sec l (LiveAt t) := by
+  refine ⟨_, delegate_resp hok, delegEff_le _ _ _ _ _, fun sec hs => ?_⟩
+  exact (access_requires_live_grant_prestate pol a b c h t _ hok).1 (parent, sec, l)
+    (List.mem_map.mpr ⟨sec, hs, rfl⟩) hr
+
+/-- `delegate` is the one way a non-Admin can create a grant: the child's edge never exceeds what the parent
+    holds at that moment (`delegate_within_own_level`), but a Read holder can hand Read on.  This is the documented
+    design (docs/book/src/architecture/tensor-vault.md "Delegation": ceiling model, and its example of a Read-only
+    deploy agent delegating Read to a canary agent); recorded as a witness so that the reading "granting requires
+    admin" is not silently claimed for delegation. -/
+theorem delegate_without_admin_witness :
+    ∃ (s : State) (t : Nat), s.getPermission t 1 1 = some .read ∧
+      (step s t (.delegate 1 2 [1] .read none)).2 = .level .read ∧
+      (step s t (.delegate 1 2 [1] .read none)).1.perm 2 1 = some .read :=
+  ⟨run (init) [(0, .set 0 1 7 3), (0, .grant 0 1 1 .read)], 1, by decide, by decide, by decide⟩
+
+/-! ## revocation, expiry and deletion act at once -/
+
+/-- (revoke) after a successful `revoke req ent sec` no VAULT_ACCESS edge `ent → sec` is left;
+    (delete) after a successful `delete req sec` no edge at all points at the secret, so every non-root requester
+    fails every level check on it in every later call (whatever the MEMBER edges, whatever the time);
+    (expire) for every history: in the graph any authorisation decision at time `t` is taken on, every edge is
+    unexpired at `t`; and a non-root requester for whom the pre-call state holds no LIVE sufficient grant fails
+    `check_access_with_permission`, and `get_permission` reports less than the needed level — at the very first
+    call at or after the expiry instant, with no intervening read. -/
+theorem revoke_expire_delete_immediate :
+    (∀ (s : State) (t req ent sec : Nat), (step s t (.revoke req ent sec)).2.isOk = true →
         ∀ e ∈ (step s t (.revoke req ent sec)).1.graph,
           ¬ (e.src = entNode ent ∧ e.dst = secNode sec ∧ e.kind.isAccess = true)) ∧
-    ((step s t (.delete req sec)).2.isOk = true →
-        ∀ r need, r ≠ root → (step s t (.delete req sec)).1.checkAccess r sec need ≠ .ok ()) := by
-  constructor
-  · intro hok e he
+    (∀ (s : State) (t req sec : Nat), (step s t (.delete req sec)).2.isOk = true →
+        ∀ r need t', r ≠ root → ((step s t (.delete req sec)).1.checkAccess t' r sec need).2 ≠ .ok ()) ∧
+    (∀ (pol : Policy) (a b c : Nat) (h : List (Nat × Op)) (t : Nat),
+        (∀ e ∈ ((run (init pol a b c) h).cleanup t).graph, LiveAt t e) ∧
+        ∀ r sec need, r ≠ root → ¬ Justified (run (init pol a b c) h) r sec need (LiveAt t) →
+          ((run (init pol a b c) h).checkAccess t r sec need).2 ≠ .ok () ∧
+          ∀ p, (run (init pol a b c) h).getPermission t r sec = some p → p.toNat < need.toNat) := by
+  refine ⟨?_, ?_, ?_⟩
+  · intro s t req ent sec hok e he
     simp only [step] at he hok
-    rw [revoke_graph hok] at he
+    obtain ⟨s', hg⟩ := revoke_graph hok
+    rw [hg] at he
     exact (mem_dropAccess.mp he).2
-  · intro hok r need hr hc
-    obtain ⟨l, e, ⟨k, grp, _, _, he, _, hdst, _, _⟩, _, _⟩ := checkAccess_ok hc hr
+  · intro s t req sec hok r need t' hr hc
+    have hj := (checkAccess_ok (s' := ((step s t (.delete req sec)).1.checkAccess t' r sec need).1)
+      (by rw [← hc]) hr).2.of_cleanup
+    obtain ⟨l, e, ⟨k, grp, _, _, he, _, hdst, _, _⟩, _, _⟩ := hj
     simp only [step] at he hok
-    rw [delete_graph hok] at he
+    obtain ⟨s', hg⟩ := delete_graph hok
+    rw [hg] at he
     simp only [List.mem_filter, decide_eq_true_eq] at he
     exact he.2 hdst
+  · intro pol a b c h t
+    have hlive := ((run_inv h _ (init_inv pol a b c)).cleanup t).2
+    refine ⟨hlive, fun r sec need hr hdead => ⟨?_, ?_⟩⟩
+    · intro hc
+      have hj := (checkAccess_ok (s' := ((run (init pol a b c) h).checkAccess t r sec need).1)
+        (by rw [← hc]) hr).2
+      exact hdead (hj.weaken (fun e he _ => hlive e he)).of_cleanup
+    · intro p hp
+      unfold State.getPermission at hp
+      rw [if_neg hr] at hp
+      obtain ⟨l', e, hw, hl', _⟩ := perm_some_justified hp
+      apply Nat.lt_of_not_le
+      intro hle
+      have hj : Justified ((run (init pol a b c) h).cleanup t) r sec need (LiveAt t) :=
+        ⟨l', e, hw, Nat.le_trans hle hl', hlive e (by obtain ⟨_, _, _, _, he, _⟩ := hw; exact he)⟩
+      exact hdead hj.of_cleanup
 
 /-- non-vacuity + the direct consequence for a requester with no group: revoked ⇒ denied at once -/
 example :
@@ -237,26 +312,53 @@ theorem at_rest_no_plain_value (pol : Policy) (a b c : Nat) (h : List (Nat × Op
     ∀ r ∈ (run (init pol a b c) h).store,
       r.key.reveals (.value v) = false ∧ ∀ f ∈ r.fields, f.2.reveals (.value v) = false := by
   intro r hr
-  have hsv := run_sv h (init pol a b c) (fun _ hx => nomatch hx)
-  exact ⟨key_reveals_no_value _ _, fun f hf => hsv r hr f hf v⟩
+  have hsv := run_sv valueCls_adm h (init pol a b c) (fun _ hx => nomatch hx)
+  refine ⟨key_reveals_no_value _ _, fun f hf => ?_⟩
+  rcases hsv r hr with hex | hok
+  · exact hex.elim
+  · exact hok f hf _ ⟨v, rfl⟩
 
 /-- non-vacuity: the value IS in the store — as ciphertext only -/
 example : (run (init) [(0, .set 0 1 7 3), (0, .rotate 0 1 9 3)]).store.any
     (fun r => r.fields.any (fun f => f.2 = .cipher (.value 9))) = true := by decide
 
-/-- FULL shape property: no store record (key or field) ever exposes a secret value or a secret name -/
-def AtRestShape : Prop :=
-  ∀ (h : List (Nat × Op)), ∀ r ∈ (run (init) h).store, ∀ f ∈ r.fields, ∀ (p : Plain),
-    (∃ v, p = .value v) ∨ (∃ n, p = .name n) → f.2.reveals p = false
+/-- FULL shape property for secret NAMES: no store record (key or field) ever exposes one -/
+def AtRestNoPlainName : Prop :=
+  ∀ (pol : Policy) (a b c : Nat) (h : List (Nat × Op)) (n : Nat), ∀ r ∈ (run (init pol a b c) h).store,
+    r.key.reveals (.name n) = false ∧ ∀ f ∈ r.fields, f.2.reveals (.name n) = false
 
-/-- the code writes the secret NAME in the clear: `_secret_key` of the `vault_secret:` node (vault.rs:554) -/
-theorem at_rest_shape_witness : ¬ AtRestShape := by
+/-- PARTIAL (missing: the two persistence records `_vault_ttl_grants` and `_vdel:…`, see the witnesses below): for
+    every configuration and history, no store KEY exposes a secret name, and no field of any OTHER record does —
+    the `vault_secret:` node record (clean since 31ebe3e9), the `_vk:` metadata record (name AES-encrypted), the
+    `_vs:` blobs and every audit record (name obfuscated by keyed hash). -/
+theorem at_rest_no_plain_name_partial (pol : Policy) (a b c : Nat) (h : List (Nat × Op)) (n : Nat) :
+    ∀ r ∈ (run (init pol a b c) h).store,
+      r.key.reveals (.name n) = false ∧
+      (r.key ≠ .ttlGrants → (∀ p ch, r.key ≠ .deleg p ch) → ∀ f ∈ r.fields, f.2.reveals (.name n) = false) := by
+  intro r hr
+  have hsv := run_sv nameCls_adm h (init pol a b c) (fun _ hx => nomatch hx)
+  refine ⟨key_reveals_no_name _ _, fun h1 h2 f hf => ?_⟩
+  rcases hsv r hr with hex | hok
+  · rcases hex with hex | ⟨p, ch, hex⟩
+    · exact absurd hex h1
+    · exact absurd hex (h2 p ch)
+  · exact hok f hf _ ⟨n, rfl⟩
+
+/-- non-vacuity: the node, metadata and audit records are there (and the name is — as ciphertext only) -/
+example :
+    let st := (run (init) [(0, .set 0 1 7 3), (0, .grant 0 1 1 .read), (1, .get 1 1)]).store
+    st.any (fun r => r.key = .node 1) = true ∧ st.any (fun r => r.key = .vk 1) = true ∧
+    st.any (fun r => r.key = .audit 2) = true ∧
+    st.any (fun r => r.fields.any (fun f => f.2 = .cipher (.name 1))) = true := by decide
+
+/-- the full name property is FALSE of the code: the persisted TTL tracker lists (entity, secret NAME) in clear -/
+theorem at_rest_no_plain_name_witness : ¬ AtRestNoPlainName := by
   intro h
-  have := h [(0, .set 0 1 7 3)] (nodeRec 1) (by decide) ("_secret_key", .clear [.name 1]) (by decide)
-    (.name 1) (Or.inr ⟨1, rfl⟩)
+  have := (h {} 3 65531 5 [(0, .set 0 1 7 3), (0, .grantTtl 0 1 1 .read 5)] 1 (ttlRec [⟨1, 1, 5⟩]) (by decide)).2
+    ("_data", .clear [.ident 1, .name 1]) (by decide)
   revert this; decide
 
-/-- … and so do the persisted TTL tracker (`_vault_ttl_grants`) and the delegation records (`_vdel:`) -/
+/-- both remaining sites: the persisted TTL tracker (`_vault_ttl_grants`) and the delegation records (`_vdel:`) -/
 theorem at_rest_name_sites_witness :
     (∃ r ∈ (run (init) [(0, .set 0 1 7 3), (0, .grantTtl 0 1 1 .read 5)]).store, r.key = .ttlGrants ∧
         ∃ f ∈ r.fields, f.2.reveals (.name 1) = true) ∧
@@ -264,5 +366,13 @@ theorem at_rest_name_sites_witness :
         ∃ f ∈ r.fields, f.2.reveals (.name 1) = true) := by
   refine ⟨⟨ttlRec [⟨1, 1, 5⟩], by decide, rfl, _, List.mem_singleton.mpr rfl, by decide⟩,
           ⟨delegRec ⟨0, 1, [1], 1⟩, by decide, rfl, _, List.mem_singleton.mpr rfl, by decide⟩⟩
+
+/-- the code BEFORE 31ebe3e9 also wrote the name in clear into the `_secret_key` field of the secret node -/
+theorem at_rest_name_node_old_witness :
+    ∃ r ∈ ((init).setOld 0 1 7 3).1.store, r.key = .node 1 ∧ ∃ f ∈ r.fields, f.2.reveals (.name 1) = true :=
+  ⟨nodeRecOld 1, by decide, rfl, ("_secret_key", .clear [.name 1]), by decide, by decide⟩
+
+/-- … the repaired `set` does not -/
+example : ∀ r ∈ (step (init) 0 (.set 0 1 7 3)).1.store, ∀ f ∈ r.fields, f.2.reveals (.name 1) = false := by decide
 
 end Neumann.Vault.Props
